@@ -49,6 +49,9 @@ def asked_records(scn, items=None):
             for x in items]
 
 
+REALFILE_MODES = {"realfile": "wb", "realfile+": "w+b", "realfile_ab": "ab", "realfile_a+b": "a+b", "realfile_xb": "xb"}
+
+
 class Storage:
     """storage kinds: sim (SimFile, faults possible), bytesio (stdlib), realfile / realfile+ (OS file)"""
 
@@ -59,10 +62,10 @@ class Storage:
             self.f = SimFile(crash_at=crash_at, log=log, name="disk")
         elif kind == "bytesio":
             self.f = io.BytesIO()
-        elif kind in ("realfile", "realfile+"):
+        elif kind in REALFILE_MODES:
             self.dir = tempfile.mkdtemp(prefix="cardsim-")
             self.path = os.path.join(self.dir, "out.bin")
-            self.f = open(self.path, "wb" if kind == "realfile" else "w+b")
+            self.f = open(self.path, REALFILE_MODES[kind])
         else:
             raise ValueError(kind)
 
@@ -139,6 +142,17 @@ def write_phase(scn, crash_at=None, log=None, items=None) -> WriteResult:
                         _, a, b = op.split(":")
                         part = items[int(a):int(b)]
                         w.write_many(copy.deepcopy(part) if scn["level"] == "ipm" else part)
+                    elif op.startswith("crowd:"):
+                        # K other writers on their own files are created, written and finalised now
+                        for j in range(int(op.split(":")[1])):
+                            g = io.BytesIO()
+                            if scn["level"] == "vbs":
+                                o = m["mciipm"].VbsWriter(g, blocked=blocked)
+                                o.write(b"other writer %d" % j)
+                            else:
+                                o = m["mciipm"].IpmWriter(g, encoding=scn.get("encoding"), iso_config=cfg, blocked=blocked)
+                                o.write({"MTI": "1240", "DE2": "%016d" % j})
+                            o.close()
                     elif op in ("close", "exit"):
                         try:
                             if op == "close":
